@@ -92,7 +92,8 @@ themselves construct) with values `a`, `b`: whatever tree an overloaded operator
 short-cut results (`x + 0`, `x + y*0`, `x - 0`, `x * 1`, `x / 1`, `-(-x)`), in direct or reflected form — evaluates to
 the arithmetic result, and has again that shape (so the statement composes over whole trees).
 Exclusions, both mirrored from the code and witnessed below: `*` and `/` with a `MassAction` operand go through
-`UnaryWrapper` (see `rdiv_massaction_defect_witness`), and `x - ""` returns `x`. -/
+`UnaryWrapper` and act on the rate coefficient (`massaction_operators_coefficient_level`,
+`rdiv_massaction_semantics_witness`), and `x - ""` returns `x`. -/
 theorem operators_are_homomorphic (ctx : Ctx ℝ) (l r e : Val ℝ) (a b : ℝ)
     (hpl : plainOps l = true) (hpr : plainOps r = true) (ha : eval ctx l = .ok a) (hb : eval ctx r = .ok b) :
     (pyAdd l r = .ok e → eval ctx e = .ok (a + b) ∧ plainOps e = true)
@@ -146,6 +147,21 @@ theorem operators_are_homomorphic (ctx : Ctx ℝ) (l r e : Val ℝ) (a b : ℝ)
     split at h
     · exact exprNeg_hom ctx l e a h hpl ha
     · cases h
+
+/-- `*` and `/` with a `MassAction` operand (`UnaryWrapper`, pinned by `test_rates.py::test_MassAction__expression`): for
+`ma = MassAction([c])` with coefficient value `k`, an operand `o` with value `b` that is not itself a `MassAction`, and the
+mass-action product `P = ∏ cᵢ^νᵢ`: `ma*o`, `o*ma` evaluate to `(k·b)·P`, `ma/o` to `(k/b)·P` and `o/ma` to `(b/k)·P` — the
+operators act on the rate coefficient and the result is again a mass-action rate. -/
+theorem massaction_operators_coefficient_level (ctx : Ctx ℝ) (c o e : Val ℝ) (k b : ℝ) (reac : List (String × ℤ))
+    (conc : String → ℝ) (hr : ctx.rxn = .some reac) (hc : ∀ p ∈ reac, ctx.vars p.1 = some (conc p.1) ∧ 0 < conc p.1)
+    (hk : eval ctx c = .ok k) (hb : eval ctx o = .ok b) (hmo : o.isMassAction = false) :
+    let ma : Val ℝ := .node .massAction false [c] none
+    let P := (reac.map fun p => conc p.1 ^ p.2).prod
+    (pyMul ma o = .ok e → eval ctx e = .ok (k * b * P))
+    ∧ (pyMul o ma = .ok e → eval ctx e = .ok (k * b * P))
+    ∧ (pyDivOp ma o = .ok e → b ≠ 0 → eval ctx e = .ok (k / b * P))
+    ∧ (pyDivOp o ma = .ok e → k ≠ 0 → eval ctx e = .ok (b / k * P)) :=
+  massAction_ops ctx c o e k b reac conc hr hc hk hb hmo
 
 /-! ## named overrides -/
 
@@ -226,18 +242,20 @@ theorem backend_naturality_partial {α β : Type} [Add α] [Sub α] [Mul α] [Di
     ∧ φ (Gen.eyringDHOverR x) = Gen.eyringDHOverR (φ x) :=
   gen_naturality h x y z
 
-/-! ## deviations of the code from the property, mirrored by the model (exact rational witnesses) -/
+/-! ## behaviour mirrored from the code that is not plain arithmetic on values (exact rational witnesses) -/
 
 /-- `2 / MassAction([3])` for `2 A → …` at `[A] = 2`: `UnaryWrapper.__rtruediv__` gives `MassAction([2/3])`, i.e.
-`(2/3)·2² = 8/3`, whereas the quotient of the values is `2/(3·2²) = 1/6`. -/
-theorem rdiv_massaction_defect_witness :
+`(2/3)·2² = 8/3` — arithmetic with a `MassAction` acts on its rate COEFFICIENT, by design: the pinned test
+`chempy/kinetics/tests/test_rates.py::test_MassAction__expression` asserts that `GeNH3 / ama` is a `MassAction` whose
+`rate_coeff` is `r_GeNH3 / r_ama`.  (The quotient of the two VALUES would be `2/(3·2²) = 1/6`.) -/
+theorem rdiv_massaction_semantics_witness :
     (do let e ← pyDivOp (constNode (2 : Rat)) (.node .massAction false [.num 3] none); eval wctx e) = .ok (8 / 3)
     ∧ (do let m ← eval wctx (.node .massAction false [.num (3 : Rat)] none); pyDiv 2 m) = .ok (1 / 6) := by
   constructor <;> decide +kernel
 
 /-- a `MassAction` among the coefficients of a `create_Poly` instance does not receive `reaction=`:
-`AttributeError`, although the same `MassAction` evaluates to 12 on its own. -/
-theorem reaction_not_forwarded_defect_witness :
+`AttributeError` (the same under every backend: a rejection), although the same `MassAction` evaluates to 12 on its own. -/
+theorem reaction_not_forwarded_witness :
     eval wctx (.node (.poly "T" false false) false [.node .massAction false [.num (3 : Rat)] none, .num 1] none)
       = .error .attributeError
     ∧ eval wctx (.node .massAction false [.num (3 : Rat)] none) = .ok 12 := by
